@@ -91,6 +91,10 @@ def corpus():
         one(["DRangeF", F(0.0), F(1.0), mask], ["PFloat", F(0.5)], ["PFloat", pv.NAN], ["PNpFloat", 18, pv.NAN],
             ["PFloat", F(0.0)], ["PFloat", F(1.0)], ["PNpFloat", 17, F(1.0)])
         one(["DCompound", [["DRangeF", F(0.0), F(1.0), mask], ["DStr"]]], ["PFloat", pv.NAN], ["PFloatObj", ["Returns", pv.NAN]])
+    for an in (True, False):                                   # proxies; Instance(K)(allow_none=...) (F20)
+        for d in (["DInstance", 100, an, False], ["DInstance", 100, an, False, "clone"]):
+            one(d, ["PProxy", 100, 1], ["PNone"], ["PProxy", 102, 1], ["PObj", 101, 1], ["PNone"])
+            one(["DCompound", [d, ["DStr"]]], ["PNone"], ["PProxy", 101, 1])
     for an in (True, False):                                                           # F18
         one(["DInstance", 0, an, False], ["PInt", 1], ["PNone"])
     one(["DMap", [[S("a"), ["PInt", 1]], [["PInt", 1], ["PInt", 2]]]], S("a"), ["PFloat", F(1.0)], S("c"), ["PList", []], ["PBool", True])
@@ -120,6 +124,8 @@ def configs(rnd, quick):
                 ["DCompound", [["DString", 0, 5, None], ["DCast", "CTInt"]]], ["DCompound", [["DInt"], ["DStr"]]],
                 ["DTuple", [["DInt"], ["DStr"]]], ["DTuple", [["DUnion", [["DRangeF", pv.F(0.0), None, 1], ["DStr"]]], ["DBool"]]],
                 ["DTuple", [["DTuple", [["DInt"], ["DCast", "CTFloat"]]], ["DString", 1, 3, 1]]]])
+    fixed = fixed + [w for d in fixed for w in pv.variants(d)] + [
+        ["DUnion", [["DEnum", [["PNone"]]], ["DInt"]]], ["DUnion", [["DStr"], ["DEnum", [["PNone"]]]]]]
     rand = []
     for _ in range(45 if quick else 450):
         d = pv.gen_desc(rnd, 3)
